@@ -329,6 +329,16 @@ def main(argv):
     oracle_fails = []
     rundir = os.path.join(BUILD, "run", "%s-%s-%d-%d" % (pid, tier, seed, os.getpid()))
     if ok:
+        # run directories kept after a violation are scratch: drop those older than two hours
+        rroot = os.path.join(BUILD, "run")
+        if os.path.isdir(rroot):
+            for d in os.listdir(rroot):
+                dp = os.path.join(rroot, d)
+                try:
+                    if time.time() - os.path.getmtime(dp) > 7200:
+                        shutil.rmtree(dp, ignore_errors=True)
+                except OSError:
+                    pass
         shutil.rmtree(rundir, ignore_errors=True)
         os.makedirs(rundir)
         seeds = [seed]
